@@ -132,8 +132,10 @@ def check_program(program, cap=MODEL_CAP):
     return ("ok", {"models": len(models), "support": support, "num_vars": top, "aux": top - support})
 
 
-def decode_models(block, models):
-    """Set of sequences (per act-design factor a tuple of level indices / 'none') the models decode to."""
+def decode_models(block, models, implied=False):
+    """Set of sequences (per act-design factor a tuple of level indices / 'none') the models decode to.
+    With implied=True the rows of the factors outside act_design are added by the REAL
+    Block.add_implied_levels (what SampleGen.decode callers do) and the rows are listed in design order."""
     with ir.quiet():
         t_n = block.trials_per_sample()
         act = list(block.act_design)
@@ -150,6 +152,16 @@ def decode_models(block, models):
                     on = [li for li, l in enumerate(f.levels) if m[block._encode_variable(f, l, t + 1) - 1]]
                     row.append(on[0] if len(on) == 1 else "bad")
                 rows.append(tuple(row))
+            if implied:
+                if any("bad" in r for r in rows):
+                    out.add(("bad",) + tuple(rows))
+                    continue
+                named = {f.name: [("" if x == "none" else f.levels[x].name) for x in r] for f, r in zip(act, rows)}
+                full = block.add_implied_levels(named)
+                rows = []
+                for f in block.design:
+                    names = [l.name for l in f.levels]
+                    rows.append(tuple(("none" if x == "" else names.index(x)) for x in full[f.name]))
             out.add(tuple(rows))
     return out
 
@@ -200,11 +212,12 @@ def denotation_f1(ctx, res, progs, cap=3000):
         models = enumerate_all(r[2], r[1], cap)
         if models is None or o.startswith("!"):
             continue
-        real = decode_models(block, models)
-        design = list(block.design)
-        aidx = [design.index(f) for f in block.act_design]
-        mod = set(tuple(tuple(q[i]) for i in aidx) for q in parse_sexp(o)[0])
+        # all rows, those of the implied factors as the real add_implied_levels computes them
+        real = decode_models(block, models, implied=True)
+        mod = set(tuple(tuple(r) for r in q) for q in parse_sexp(o)[0])
         ok = real == mod
+        if len(block.act_design) != len(block.design):
+            res.extra["denote_with_implied"] = res.extra.get("denote_with_implied", 0) + 1
         res.layer("T1-F1-denotes", ok)
         res.count(("denote", name, len(real)), nontrivial=len(real) > 0)
         if not ok:
